@@ -19,7 +19,6 @@ import (
 	"github.com/glowlabs-org/gca-backend/glow"
 	"github.com/glowlabs-org/gca-backend/server"
 
-	"verifh/ev"
 	"verifh/pool"
 	"verifh/shim/vos"
 )
@@ -333,7 +332,7 @@ func init() {
 		return c05Run(j), nil
 	})
 	checks["C05"] = func(tier string) int {
-		run := ev.NewRun("C05", tier, "fault_enumeration")
+		run := newRun("C05", tier, "fault_enumeration")
 		maxLen := 4
 		if tier == "thorough" {
 			maxLen = 6
